@@ -100,6 +100,8 @@ impl Harness for C10 {
     };
     let c = Sym::var("via.c", 100);
     let take_n = if self.via == Via::Take { 1 + sym::choose("via.n", 2) } else { 0 };
+    let shared_handle = sym::choose("shared_handle", 2) == 1;
+    let the_handle = sbj.observable();
     let no = self.observers;
     let mut recs: Vec<Option<Recorder>> = (0..no).map(|_| None).collect();
     let mut subs: Vec<Option<Subscription<'static>>> = (0..no).map(|_| None).collect();
@@ -143,7 +145,7 @@ impl Harness for C10 {
           }
           trace.push(format!("sub{}", j));
           let rec = Recorder::labelled(&format!("{}", j));
-          let o = sbj.observable();
+          let o = if shared_handle { the_handle.clone() } else { sbj.observable() };
           let o = match self.via {
             Via::Direct => o,
             Via::Map => {
